@@ -331,6 +331,47 @@ func (m *muxHarness) request(host, user string) (int64, bool, error) {
 	}
 }
 
+// requestInFlight sends a CONNECT, waits for the success hook's "200", lets closeRouted close the listener the
+// connection was routed to (nobody accepts on it), and reports which listener got the connection afterwards.
+func (m *muxHarness) requestInFlight(host string, closeRouted func()) (int64, bool, error) {
+	c, err := net.DialTimeout("tcp", m.ln.Addr().String(), 2*time.Second)
+	if err != nil {
+		return 0, false, err
+	}
+	defer c.Close()
+	_ = c.SetDeadline(time.Now().Add(3 * time.Second))
+	if _, err := c.Write([]byte("CONNECT " + host + " HTTP/1.1\r\nHost: " + host + "\r\n\r\n")); err != nil {
+		return 0, false, err
+	}
+	br := bufio.NewReader(c)
+	status, err := br.ReadString('\n')
+	if err != nil || !strings.Contains(status, " 200 ") {
+		return 0, false, fmt.Errorf("in-flight CONNECT %q: status %q %v", host, status, err)
+	}
+	time.Sleep(3 * time.Millisecond) // the muxer is now blocked handing the connection to the routed listener
+	closeRouted()
+	for {
+		line, err := br.ReadString('\n')
+		if err != nil {
+			// closed without reaching any listener
+			select {
+			case l := <-m.got:
+				return l, true, nil
+			default:
+				return 0, false, nil
+			}
+		}
+		if strings.HasPrefix(line, "L") {
+			n, _ := strconv.ParseInt(strings.TrimSpace(line[1:]), 10, 64)
+			select {
+			case <-m.got:
+			default:
+			}
+			return n, true, nil
+		}
+	}
+}
+
 var connectHosts = []string{
 	"a.example.com:443", "A.Example.COM:443", "a.example.com.:443", "b.example.com:80", "x.a.example.com:1",
 	"y.a.example.com:443", "c.example.com:443", "example.com:443", "other.org:443", "a.example.com", "B.example.com.",
@@ -357,6 +398,41 @@ func historyMux(g *hx.Gen, kind, nops int, dist map[string]int) ([]string, error
 		}
 	}()
 	for i := 0; i < nops; i++ {
+		if kind == 3 && g.Chance(0.08) {
+			// the listener a CONNECT was routed to closes between look-up and hand-over while a more
+			// general route covers the host: the connection must be closed, not handed to that other route
+			covered := false
+			for _, x := range live {
+				if x.t.l == "" && x.t.u == "" && (strings.EqualFold(x.t.d, "*.example.com") || x.t.d == "*") {
+					covered = true
+				}
+			}
+			if !covered {
+				t := triple{"*.example.com", "", ""}
+				label++
+				l, err := m.listen(t, label)
+				if err == nil {
+					live = append(live, liveL{t, l})
+				}
+				ops = append(ops, fmt.Sprintf("OAdd %s [] [] %d %s", hx.HxS(t.d), label, hx.Bool(err == nil)))
+			}
+			label++
+			dom := fmt.Sprintf("inflight%d.example.com", label)
+			// registered WITHOUT an accepting goroutine: the muxer blocks in the hand-over
+			lx, err := m.mux.Listen(context.Background(), &vhost.RouteConfig{Domain: dom})
+			ops = append(ops, fmt.Sprintf("OAdd %s [] [] %d %s", hx.HxS(dom), label, hx.Bool(err == nil)))
+			if err != nil {
+				continue
+			}
+			host := dom + ":443"
+			lbl, ok, err := m.requestInFlight(host, func() { _ = lx.Close() })
+			if err != nil {
+				return nil, err
+			}
+			dist["listener closed between look-up and hand-over"]++
+			ops = append(ops, fmt.Sprintf("ODropped true %s [] [] %s", hx.HxS(host), optZ(lbl, ok)))
+			continue
+		}
 		switch x := g.Intn(100); {
 		case x < 40:
 			// locations other than "" can be registered but never match: a muxed connection has the empty path
@@ -458,6 +534,7 @@ func runRouter(cfg *hx.RunCfg) error {
 			"Definition NUSERSPECIFIC := Eval vm_compute in sum_cases (router_counter 5) cases.\nPrint NUSERSPECIFIC.\n" +
 			"Definition NUSERFALLBACK := Eval vm_compute in sum_cases (router_counter 6) cases.\nPrint NUSERFALLBACK.\n" +
 			"Definition NLONGLOC := Eval vm_compute in sum_cases (router_counter 7) cases.\nPrint NLONGLOC.\n" +
+			"Definition NDROPPED := Eval vm_compute in sum_cases (router_counter 9) cases.\nPrint NDROPPED.\n" +
 			"Definition NDEEPWILD := Eval vm_compute in sum_cases (router_counter 8) cases.\nPrint NDEEPWILD.\n" +
 			"Definition NVIOL := Eval vm_compute in count_if (fun c => negb (C06_holds c)) cases.\nPrint NVIOL.\n",
 	}
